@@ -654,10 +654,17 @@ def _report_check(chk, tier, pid):
             quiet = {"Quiet": "pragma solidity 0.8.17;\ncontract Quiet { }\n",
                      "OnlyOpt": "pragma solidity 0.8.17;\ncontract OnlyOpt { uint256 x; function f() external payable { x++; } }\n",
                      "OnlyVuln": "pragma solidity ^0.8.17;\ncontract OnlyVuln { }\n",
-                     "OnlyQa": "pragma solidity 0.8.17;\ncontract OnlyQa { function f() private pure {} }\n"}
+                     "OnlyQa": "pragma solidity 0.8.17;\ncontract OnlyQa { function f() private pure {} }\n",
+                     # one vulnerability each (one severity heading each), the deprecated spelling of selfdestruct among them
+                     "OnlyHigh": "pragma solidity 0.8.17;\ncontract OnlyHigh { function kill() external { selfdestruct(payable(address(0))); } }\n",
+                     "OnlyHighAlias": "pragma solidity 0.4.24;\ncontract OnlyHighAlias { function kill() external { suicide(address(0)); } }\n",
+                     "OnlyMedium": "pragma solidity 0.8.17;\ncontract OnlyMedium { function f(uint256 a, uint256 b, uint256 c) external pure returns (uint256) { return a / b * c; } }\n",
+                     "OnlyLow": "pragma solidity 0.8.17;\ninterface IL { function approve(address s, uint256 v) external returns (bool); }\n"
+                                "contract OnlyLow { function f(IL t) external { t.approve(address(this), 1); } }\n"}
             qruns = []
             has_of = {}
             count_of = {}
+            sev_of = {}
             for qi, (qn, text) in enumerate(sorted(quiet.items())):
                 iso = os.path.join(scratch2, "iso_%s.sol" % qn)
                 with open(iso, "w") as f:
@@ -666,6 +673,7 @@ def _report_check(chk, tier, pid):
                 has = {c: any(isinstance(rr.get(pn), list) and rr.get(pn) for pn in cat[c]) for c in bindrive.CATS}
                 count = {c: sum(len(rr.get(pn) or []) for pn in cat[c] if isinstance(rr.get(pn), list)) for c in bindrive.CATS}
                 count_of[qn] = count
+                sev_of[qn] = sorted(set(vlib_sev(pn) for pn in cat["vulnerabilities"] if isinstance(rr.get(pn), list) and rr.get(pn)))
                 for shape in ("flat", "nested", "script"):
                     troot = os.path.join(scratch2, "q%d%s" % (qi, shape))
                     where = troot if shape == "flat" else os.path.join(troot, "script") if shape == "script" else os.path.join(troot, "sub", "inner")
@@ -717,7 +725,10 @@ def _report_check(chk, tier, pid):
                               # findings of the analysed files measured file by file / entries listed / total printed
                               "expected": expected,
                               "entries": {c: sum(1 for it in items[c] if it["t"] == "Entry") for c in bindrive.CATS},
-                              "total": {c: next((it["n"] for it in items[c] if it["t"] == "Overview"), -1) for c in bindrive.CATS}})
+                              "total": {c: next((it["n"] for it in items[c] if it["t"] == "Overview"), -1) for c in bindrive.CATS},
+                              # severity headings of the vulnerability part / severities of the findings measured file by file
+                              "sev_present": sorted(set(it["s"] for it in items["vulnerabilities"] if it["t"] == "Severity")),
+                              "sev_expected": sev_of[qn]})
             for ci, combo in enumerate(combos):
                 p = parsed.get("b%02d.md" % ci)
                 if p is None:
@@ -869,6 +880,10 @@ def _pipeline(chk, tier, pid, beh):
              {"entries": [fl("Many.sol", "c9"), dr("more", [fl("Many2.sol", "c9"), fl("b.sol", "c6")])]},
              # deeply nested expressions between ordinary findings (c10), listed before and after other files
              {"entries": [fl("A.sol", "c1"), fl("Deep.sol", "c10"), dr("sub", [fl("Deep2.sol", "c10"), fl("Z.sol", "c2")]), fl("Z.sol", "c5")]},
+             # entries whose names differ in letter case only (files and directories): different entries all the same
+             {"entries": [fl("Token.sol", "c5"), fl("token.sol", "c6"), fl("TOKEN.sol", "c1"), dr("Lib", [fl("a.sol", "c1")]), dr("lib", [fl("A.sol", "c2")])]},
+             # nothing to report at all: the (empty) report is written all the same, over whatever was there
+             {"entries": [fl("Empty.sol", "c3"), dr("sub", [fl("Empty2.sol", "c3")])]},
              # an eligible file thirty directories down, others on the way
              {"entries": [fl("Top.sol", "c1"), deep_chain(30)]}] + trees
     recs = pipeline.run_trees(chk, hb, sb, trees, cat, d)
@@ -1338,6 +1353,46 @@ def _c18_execute(chk, sb, hist):
     return recs
 
 
+def _c18_bulk(sb):
+    """One large run (70 files with 160 findings of six patterns each: a report of more than a megabyte): from a clean
+    unrelated directory (the reference), inside the analysed tree, and there once more over the report just written."""
+    scratch = vlib.scratch_dir("C18b")
+    recs = []
+    try:
+        root = os.path.join(scratch, "root")
+        proj = os.path.join(root, "proj")
+        other = os.path.join(root, "other")
+        os.makedirs(os.path.join(proj, "more", "still"))
+        os.makedirs(other)
+        text = open(os.path.join(ROOT, "corpus", "dirwalk", "c9.sol"), "rb").read()
+        for i in range(70):
+            where = proj if i < 40 else os.path.join(proj, "more") if i < 60 else os.path.join(proj, "more", "still")
+            with open(os.path.join(where, "Bulk%02d.sol" % i), "wb") as f:
+                f.write(text)
+        bindrive.furnish(proj)
+        bindrive.furnish(other)
+        init = {"in": "absent", "parent": "absent", "sub": "absent", "other": "absent"}
+        hist = [["other", "full", "flag"], ["in", "full", "flag"], ["in", "full", "flag"]]
+        clean = None
+        for step, (c, _mode, _via) in enumerate(hist):
+            cwd, path = (other, proj) if c == "other" else (proj, ".")
+            before = bindrive.snapshot(root)
+            code, err = bindrive.run_solstat(sb, cwd, ["--path", path], timeout=600)
+            after = bindrive.snapshot(root)
+            changed = sorted(p for p in set(before) | set(after) if before.get(p) != after.get(p))
+            rp = os.path.relpath(os.path.join(cwd, "solstat_report.md"), root)
+            data = open(os.path.join(root, rp), "rb").read() if os.path.exists(os.path.join(root, rp)) else None
+            if step == 0:
+                clean = data
+            recs.append({"k": "run", "cwd": c, "mode": "full", "via": "flag", "step": step + 1, "init": init, "history": hist,
+                         "stale": "absent" if step < 2 else "previous-run", "bulk_report_bytes": len(data or b""), "stderr": err[-200:],
+                         "obs": {"exit": code, "changed": changed, "report_path": rp,
+                                 "report_is_clean": data is not None and data == clean and len(data) > 1000000}})
+    finally:
+        shutil.rmtree(scratch, ignore_errors=True)
+    return recs
+
+
 @prop("C18")
 def check_c18(chk, tier):
     hb = vlib.build_harness("dev")
@@ -1361,6 +1416,7 @@ def check_c18(chk, tier):
         hist = hist[vlib.seed() % step::step]
     chk.extra["histories_run"] = len(hist)
     recs = _c18_execute(chk, sb, hist)
+    recs += _c18_bulk(sb)
     tpath = os.path.join(d, "trace.ndjson")
     vlib.write_ndjson(tpath, recs)
     chk.evaluations += len(recs)
